@@ -421,6 +421,11 @@ impl Driver {
         // if the source itself could not be read, the error is reported without source code
         let content = self.source(path).unwrap_or_default();
         let err: miette::Error = err.into();
+        // the graphical report handler pads a snippet line up to the column of a label with a
+        // formatting width, which must not exceed `u16::MAX`; for such lines no snippet is shown
+        if content.lines().any(|line| line.len() > usize::from(u16::MAX)) {
+            return err;
+        }
         err.with_source_code(content)
     }
 
